@@ -376,7 +376,7 @@ class C11:
                       "reach.regex_meta_delims", "reach.letter_delims", "reach.thread_switch_inside_op",
                       "reach.async_batch", "reach.embedded_guest", "fault.env_construction_failed",
                       "reach.cross_parse", "reach.shared_loader", "reach.factory_loader_equal_args",
-                      "reach.default_environment_customised"]
+                      "reach.default_environment_customised", "reach.flood_rolled_lexer_cache"]
 
     def process_init(self):
         fork.init_zygote(evaluate_probe)
@@ -490,6 +490,8 @@ class C11:
             elif k == "flood":
                 op["n"] = rng.choice([129, 140, 300])
                 op["same_delims"] = rng.chance(0.5)
+                if rng.chance(0.4):
+                    op["distinct_lexers"] = True    # every throw-away environment has its own delimiters and lexes once
             elif k == "async_batch":
                 # several environments render concurrently on one event loop (their partials share names)
                 op["items"] = [{"spec": rng.randrange(len(specs)), "tree": rng.randrange(len(trees)),
@@ -689,8 +691,15 @@ class C11:
                 before = info() if info else None                # implemented differently one day)
                 d = delims_of(i) if op["same_delims"] else G.DEFAULT_DELIMS
                 for n in range(op["n"]):
+                    if op.get("distinct_lexers"):
+                        # rolls the memo of compiled lexers (keyed on the delimiter strings) as well
+                        Environment(tag_start_string="<%d%%" % n, tag_end_string="%%%d>" % n,
+                                    statement_start_string="<%d<" % n, statement_end_string=">%d>" % n).from_string("x")
+                        continue
                     Environment(tag_start_string=d["ts"], tag_end_string=d["te"], statement_start_string=d["os"],
                                 statement_end_string=d["oe"])
+                if op.get("distinct_lexers"):
+                    bump(st, "reach.flood_rolled_lexer_cache")
                 after = info() if info else None
                 if after and after.currsize >= (after.maxsize or 1 << 30) and after.misses - before.misses >= 128:
                     bump(st, "reach.flood_rolled_parser_cache")
